@@ -485,7 +485,7 @@ def _arith(op, a, b):
     ta, tb = _as_arith(a), _as_arith(b)
     c = _CTX
     dg = _deg_of(op, a, b)
-    if c is not None and c.fmode and (ta.sort() == z3.RealSort() or tb.sort() == z3.RealSort() or op == "div"):
+    if c is not None and c.fmode and c.in_code > 0 and (ta.sort() == z3.RealSort() or tb.sort() == z3.RealSort() or op == "div"):
         r = c.round_op(op, ta, tb)
         r.deg = dg
         return r
